@@ -6,6 +6,11 @@ transcript lines of its own) is imported by the real create_db under one of the 
 The reference model gvmon/models/gtfinfer.py says which derived features must exist (id, type, seqid, strand, extent),
 which must not, and the exact relation triples; the database is read back through db[id], children(), parents() and,
 independently, with plain sqlite3 (gvmon/dbdump.py).
+
+Case kinds (all replayable through execute): "gtf" (the basic workload), "gtf-large" (1100-2500 lines, rebuilt from
+case["gen"] = {seed, where, nlines}: the file's own gene/transcript lines late / early / both / none), "gtf-odd" (ids and
+values with 'word=', '%41', blanks, non-ASCII: the file must still be read as GTF), "gtf-oneshot" (case["how"] =
+generator | iterator of Features, case["checklines"]).
 """
 import os
 import random
